@@ -263,6 +263,10 @@ fn assert_access_many<I: Identifier>(
     ids: &[I],
     desc: &str,
 ) {
+    #[cfg(feature = "verif_hooks")]
+    for id in ids {
+        verif::record_access(id, desc);
+    }
     let allow = match demand {
         AccessCheck::All => ids.iter().all(|id| access.check(id)),
         AccessCheck::Any => ids.iter().any(|id| access.check(id)),
@@ -273,6 +277,8 @@ fn assert_access_many<I: Identifier>(
 }
 
 fn assert_access_one<I: Identifier>(access: &Access<I>, id: &I, desc: &str) {
+    #[cfg(feature = "verif_hooks")]
+    verif::record_access(id, desc);
     let allow = access.check(id);
     if !allow {
         panic!("Illegal {desc} of {id:?}. {desc} access: {access:?}");
@@ -302,5 +308,143 @@ impl<I: Identifier> AccessControlList<I> {
 
     pub fn assert_write_access(&self, id: &I) {
         assert_access_one(&self.write_access, id, "write");
+    }
+}
+
+/// Verification hooks: an event log of context accesses and scheduler steps.
+///
+/// Compiled only with the `verif_hooks` feature; recording is off until
+/// [`verif::enable`] is called. Nothing here changes behaviour.
+#[cfg(feature = "verif_hooks")]
+pub mod verif {
+    use std::{
+        cell::RefCell,
+        fmt::Debug,
+        sync::{
+            Mutex,
+            atomic::{AtomicBool, AtomicU64, Ordering},
+        },
+    };
+
+    #[derive(Clone, Debug)]
+    pub enum Event {
+        /// `actor` read or wrote `item` (the Debug form of the identifier)
+        Access {
+            actor: String,
+            item: String,
+            write: bool,
+        },
+        /// `actor` read every entry of the map holding values of type `map`
+        ReadAll { actor: String, map: &'static str },
+        /// `actor` wrote entry `item` of the map holding values of type `map`
+        MapWrite {
+            actor: String,
+            map: &'static str,
+            item: String,
+        },
+        /// scheduler step: insert / launch / begin / end / hs_begin / hs_end
+        Sched {
+            kind: &'static str,
+            job: String,
+            extra: Vec<String>,
+        },
+    }
+
+    static ENABLED: AtomicBool = AtomicBool::new(false);
+    static JITTER_SEED: AtomicU64 = AtomicU64::new(0);
+    static LOG: Mutex<Vec<Event>> = Mutex::new(Vec::new());
+
+    thread_local! {
+        static ACTOR: RefCell<String> = const { RefCell::new(String::new()) };
+    }
+
+    pub fn enable(on: bool) {
+        ENABLED.store(on, Ordering::SeqCst);
+    }
+
+    pub fn enabled() -> bool {
+        ENABLED.load(Ordering::Relaxed)
+    }
+
+    pub fn take() -> Vec<Event> {
+        std::mem::take(&mut *LOG.lock().unwrap())
+    }
+
+    pub fn set_actor(actor: impl Into<String>) {
+        let actor = actor.into();
+        ACTOR.with(|a| *a.borrow_mut() = actor);
+    }
+
+    pub fn actor() -> String {
+        ACTOR.with(|a| a.borrow().clone())
+    }
+
+    pub fn record(event: Event) {
+        if enabled() {
+            LOG.lock().unwrap().push(event);
+        }
+    }
+
+    pub fn record_access(id: &impl Debug, desc: &str) {
+        if enabled() {
+            record(Event::Access {
+                actor: actor(),
+                item: format!("{id:?}"),
+                write: desc == "write",
+            });
+        }
+    }
+
+    pub fn record_read_all(map: &'static str) {
+        if enabled() {
+            record(Event::ReadAll {
+                actor: actor(),
+                map,
+            });
+        }
+    }
+
+    pub fn record_map_write(map: &'static str, id: &impl Debug) {
+        if enabled() {
+            record(Event::MapWrite {
+                actor: actor(),
+                map,
+                item: format!("{id:?}"),
+            });
+        }
+    }
+
+    pub fn sched(kind: &'static str, job: &impl Debug, extra: Vec<String>) {
+        if enabled() {
+            record(Event::Sched {
+                kind,
+                job: format!("{job:?}"),
+                extra,
+            });
+        }
+    }
+
+    /// 0 disables jitter
+    pub fn set_jitter_seed(seed: u64) {
+        JITTER_SEED.store(seed, Ordering::SeqCst);
+    }
+
+    /// Sleep for a duration derived from (seed, point, job): the same seed perturbs
+    /// the same places by the same amount regardless of thread timing.
+    pub fn jitter(point: &str, job: &impl Debug) {
+        let seed = JITTER_SEED.load(Ordering::Relaxed);
+        if seed == 0 {
+            return;
+        }
+        let mut h: u64 = 0xcbf29ce484222325 ^ seed;
+        for b in point.bytes().chain(format!("{job:?}").bytes()) {
+            h ^= b as u64;
+            h = h.wrapping_mul(0x100000001b3);
+        }
+        h ^= h >> 29;
+        // most points are not delayed; some are delayed up to ~3ms
+        if h % 4 == 0 {
+            std::thread::sleep(std::time::Duration::from_micros(h % 3000));
+        }
     }
 }
